@@ -35,8 +35,10 @@ AllObs == {"tracker:port", "tracker:noport", "webseed",
            "peer:version", "peer:port", "peer:dhtport", "peer:ipv6",
            "incoming:accepted", "incoming:refused"}
 
-VARIABLES started, proxy, kind, conf, due, wanted, out, last
-vars == <<started, proxy, kind, conf, due, wanted, out, last>>
+VARIABLES started, proxy, kind, conf, due, wanted, peer, out, last
+vars == <<started, proxy, kind, conf, due, wanted, peer, out, last>>
+\* peer: a remote peer that has some of the pieces is connected and stays (it never unchokes us).  With a peer present
+\* periodicRequest takes other paths (it no longer returns early when web seeds are off), so Want is explored both ways.
 \* kind: the scheme of the torrent's tracker.  A UDP tracker cannot be reached through the (SOCKS) proxy: tracker/udp.go
 \* asks the proxy dialer for a UDP connection, which it refuses, so a proxied torrent never contacts it.
 Kinds == {"http", "udp"}
@@ -50,51 +52,60 @@ DhtBoth(c, px) == DhtOut(c, px, "dht4") \cup DhtOut(c, px, "dht6")
 WsOut(c, w) == IF c.ws /\ w THEN {"webseed"} ELSE {}
 
 Init == /\ started = FALSE /\ proxy \in BOOLEAN /\ kind \in Kinds /\ conf \in Confs   \* conf: the global defaults
-        /\ due = TRUE /\ wanted = FALSE /\ out = {} /\ last = [a |-> "init"]
+        /\ due = TRUE /\ wanted = FALSE /\ peer = FALSE /\ out = {} /\ last = [a |-> "init"]
 
 Start == /\ ~started /\ started' = TRUE
          /\ out' = DhtBoth(conf, proxy)
          /\ last' = [a |-> "Start"]
-         /\ UNCHANGED <<proxy, kind, conf, due, wanted>>
+         /\ UNCHANGED <<proxy, kind, conf, due, wanted, peer>>
 
 SetConf(c) == /\ started /\ conf' = c
               /\ out' = (IF Rank(conf.dht) < Rank(c.dht) THEN DhtBoth(c, proxy) ELSE {}) \cup WsOut(c, wanted)
               /\ wanted' = (wanted /\ ~c.ws)
               /\ last' = [a |-> "SetConf", c |-> c]
-              /\ UNCHANGED <<started, proxy, kind, due>>
+              /\ UNCHANGED <<started, proxy, kind, due, peer>>
 
 DhtEvent(fam) == /\ started /\ out' = DhtOut(conf, proxy, fam)
                  /\ last' = [a |-> "DhtEvent", fam |-> fam]
-                 /\ UNCHANGED <<started, proxy, kind, conf, due, wanted>>
+                 /\ UNCHANGED <<started, proxy, kind, conf, due, wanted, peer>>
 
 TrackerDue == /\ started /\ ~due /\ due' = TRUE /\ out' = {} /\ last' = [a |-> "TrackerDue"]
-              /\ UNCHANGED <<started, proxy, kind, conf, wanted>>
+              /\ UNCHANGED <<started, proxy, kind, conf, wanted, peer>>
 
 Tick == /\ started
         /\ IF conf.trk /\ due
            THEN out' = (IF proxy THEN (IF kind = "udp" THEN {} ELSE {"tracker:noport"}) ELSE {"tracker:port"}) /\ due' = FALSE
            ELSE out' = {} /\ due' = due
         /\ last' = [a |-> "Tick"]
-        /\ UNCHANGED <<started, proxy, kind, conf, wanted>>
+        /\ UNCHANGED <<started, proxy, kind, conf, wanted, peer>>
 
 Want == /\ started
         /\ out' = WsOut(conf, TRUE)
         /\ wanted' = ~conf.ws
         /\ last' = [a |-> "Want"]
-        /\ UNCHANGED <<started, proxy, kind, conf, due>>
+        /\ UNCHANGED <<started, proxy, kind, conf, due, peer>>
 
 Incoming == /\ started
             /\ out' = IF proxy THEN {"incoming:refused"}
                       ELSE {"incoming:accepted", "peer:version", "peer:port", "peer:dhtport"}
             /\ last' = [a |-> "Incoming"]
-            /\ UNCHANGED <<started, proxy, kind, conf, due, wanted>>
+            /\ UNCHANGED <<started, proxy, kind, conf, due, wanted, peer>>
 
 Outgoing == /\ started
             /\ out' = IF proxy THEN {} ELSE {"peer:version", "peer:port", "peer:dhtport"}
             /\ last' = [a |-> "Outgoing"]
-            /\ UNCHANGED <<started, proxy, kind, conf, due, wanted>>
+            /\ UNCHANGED <<started, proxy, kind, conf, due, wanted, peer>>
 
-Next == Start \/ (\E c \in Confs : SetConf(c)) \/ DhtEvent("dht4") \/ DhtEvent("dht6")
+\* a remote peer connects (through tor.Server, so only to an unproxied torrent) and stays / leaves again
+PeerJoin == /\ started /\ ~peer /\ ~proxy /\ kind = "http"
+            /\ peer' = TRUE
+            /\ out' = {"incoming:accepted", "peer:version", "peer:port", "peer:dhtport"}
+            /\ last' = [a |-> "PeerJoin"]
+            /\ UNCHANGED <<started, proxy, kind, conf, due, wanted>>
+PeerLeave == /\ started /\ peer /\ peer' = FALSE /\ out' = {} /\ last' = [a |-> "PeerLeave"]
+             /\ UNCHANGED <<started, proxy, kind, conf, due, wanted>>
+
+Next == PeerJoin \/ PeerLeave \/ Start \/ (\E c \in Confs : SetConf(c)) \/ DhtEvent("dht4") \/ DhtEvent("dht6")
         \/ TrackerDue \/ Tick \/ Want \/ Incoming \/ Outgoing
 Spec == Init /\ [][Next]_vars
 
@@ -111,7 +122,7 @@ Allowed(o, c, px) ==
     [] OTHER -> TRUE
 Forbidden(c, px) == {o \in AllObs : ~Allowed(o, c, px)}
 
-TypeOK == /\ started \in BOOLEAN /\ proxy \in BOOLEAN /\ kind \in Kinds /\ conf \in Confs /\ due \in BOOLEAN /\ wanted \in BOOLEAN
+TypeOK == /\ peer \in BOOLEAN /\ started \in BOOLEAN /\ proxy \in BOOLEAN /\ kind \in Kinds /\ conf \in Confs /\ due \in BOOLEAN /\ wanted \in BOOLEAN
           /\ out \subseteq AllObs
 PrivacyInv == out \cap Forbidden(conf, proxy) = {}
 \* a wanted piece stays outstanding only while web seeds are off (no starvation once they are on)
